@@ -55,13 +55,83 @@ pub trait Model: Sized {
     fn nontrivial(&self) -> bool {
         false
     }
+    /// Scheduling deviation for the next `apply`. `Pick(j, k)`: at the j-th moment of that step at which two or
+    /// more plugin tasks are runnable, poll the task at queue position `k` instead of the oldest one.
+    /// `Park(n)`: the task that reaches the n-th preemption point of that step (about to lock a mutex, send or
+    /// receive on a channel) is suspended there until the next event has taken effect.
+    fn set_deviation(&mut self, _dev: Dev) {}
+    /// Number of runnable tasks at every pick point of the last `apply` (only points with a choice).
+    fn last_pick_points(&self) -> Vec<u8> {
+        Vec::new()
+    }
+    /// Number of preemption points of the last `apply` at which a task may be suspended (0 = not explored here).
+    fn last_sync_points(&self) -> u16 {
+        0
+    }
+    /// Was the deviation set for the last `apply` actually reached?
+    fn deviation_reached(&self) -> bool {
+        true
+    }
+}
+
+#[derive(Clone, Copy, Debug, PartialEq, Eq)]
+pub enum Dev {
+    None,
+    Pick(u16, u8),
+    Park(u16),
+}
+
+/// One step of a history: the index of the event among the enabled ones, plus at most one run-queue deviation.
+pub type Step = u64;
+
+pub fn enc(idx: usize, dev: Dev) -> Step {
+    let idx = idx as u64 & 0xffff;
+    match dev {
+        Dev::None => idx,
+        Dev::Pick(j, k) => idx | (1 << 16) | ((j as u64) << 24) | ((k as u64) << 40),
+        Dev::Park(n) => idx | (2 << 16) | ((n as u64) << 24),
+    }
+}
+
+pub fn dec(s: Step) -> (usize, Dev) {
+    let idx = (s & 0xffff) as usize;
+    match (s >> 16) & 0xff {
+        1 => (idx, Dev::Pick((s >> 24) as u16, (s >> 40) as u8)),
+        2 => (idx, Dev::Park((s >> 24) as u16)),
+        _ => (idx, Dev::None),
+    }
+}
+
+pub fn dev_suffix(dev: Dev) -> String {
+    match dev {
+        Dev::None => String::new(),
+        Dev::Pick(j, k) => format!(" ~pick{}={}", j, k),
+        Dev::Park(n) => format!(" ~park{}", n),
+    }
+}
+
+/// Splits "label ~pickJ=K" / "label ~parkN" into the plain label and the scheduling deviation.
+pub fn split_dev(label: &str) -> (&str, Dev) {
+    if let Some(pos) = label.rfind(" ~pick") {
+        let rest = &label[pos + 6..];
+        let mut it = rest.split('=');
+        if let (Some(j), Some(k)) = (it.next().and_then(|x| x.parse().ok()), it.next().and_then(|x| x.parse().ok())) {
+            return (&label[..pos], Dev::Pick(j, k));
+        }
+    }
+    if let Some(pos) = label.rfind(" ~park") {
+        if let Ok(n) = label[pos + 6..].parse() {
+            return (&label[..pos], Dev::Park(n));
+        }
+    }
+    (label, Dev::None)
 }
 
 #[derive(Clone, Debug)]
 pub struct Found {
     pub violation: Violation,
     pub cost: u32,
-    pub choices: Vec<u16>,
+    pub choices: Vec<Step>,
     pub labels: Vec<String>,
     pub log: Vec<String>,
 }
@@ -80,6 +150,13 @@ pub struct Stats {
     pub time_capped: bool,
     pub level_completed: i32,
     pub determinism_rechecks: u64,
+    /// moments at which two or more plugin tasks were runnable (new transitions only)
+    pub pick_points: u64,
+    /// histories started from a non-FIFO choice at such a moment
+    pub pick_alternatives: u64,
+    /// preemption points (new transitions only) / histories started by suspending a task at one
+    pub sync_points: u64,
+    pub park_alternatives: u64,
     pub wall_s: f64,
 }
 
@@ -96,7 +173,7 @@ const SHARDS: usize = 64;
 struct Shared<'a, M: Model> {
     cfg: &'a M::Cfg,
     bound: u32,
-    stack: Mutex<Vec<Vec<u16>>>,
+    stack: Mutex<Vec<Vec<Step>>>,
     in_flight: AtomicUsize,
     visited: Vec<Mutex<HashSet<u128>>>,
     outcomes: Mutex<HashSet<u64>>,
@@ -109,6 +186,10 @@ struct Shared<'a, M: Model> {
     states: AtomicU64,
     capped_runs: AtomicU64,
     rechecks: AtomicU64,
+    pick_points: AtomicU64,
+    pick_alts: AtomicU64,
+    sync_points: AtomicU64,
+    park_alts: AtomicU64,
     max_depth_seen: AtomicUsize,
     time_capped: AtomicBool,
     error: Mutex<Option<String>>,
@@ -121,32 +202,73 @@ fn mix(key: u128, budget: u32) -> u128 {
 }
 
 struct RunResult {
-    children: Vec<Vec<u16>>,
+    children: Vec<Vec<Step>>,
     trace: u64,
     leaf: bool,
 }
 
-fn run_one<M: Model>(sh: &Shared<M>, prefix: &[u16], record: bool) -> Result<RunResult, String> {
+/// Histories that differ from the one just run only in which runnable task was polled first at one moment of
+/// its last step (cost: one deviation). Generated by the one run that executes that step for the first time.
+fn pick_children<M: Model>(sh: &Shared<M>, m: &M, choices: &[Step], cost: u32, children: &mut Vec<Vec<Step>>) {
+    let (idx, dev) = dec(*choices.last().unwrap());
+    if dev != Dev::None {
+        // a second deviation inside the same step is not explored (stated bound: one per step)
+        return;
+    }
+    let points = m.last_pick_points();
+    let syncs = m.last_sync_points();
+    sh.pick_points.fetch_add(points.len() as u64, Ordering::Relaxed);
+    sh.sync_points.fetch_add(syncs as u64, Ordering::Relaxed);
+    if cost + 1 > sh.bound {
+        return;
+    }
+    for n in 0..syncs {
+        let mut p = choices[..choices.len() - 1].to_vec();
+        p.push(enc(idx, Dev::Park(n)));
+        children.push(p);
+        sh.park_alts.fetch_add(1, Ordering::Relaxed);
+    }
+    for (j, n) in points.iter().enumerate() {
+        for k in 1..*n {
+            let mut p = choices[..choices.len() - 1].to_vec();
+            p.push(enc(idx, Dev::Pick(j as u16, k)));
+            children.push(p);
+            sh.pick_alts.fetch_add(1, Ordering::Relaxed);
+        }
+    }
+}
+
+fn run_one<M: Model>(sh: &Shared<M>, prefix: &[Step], record: bool) -> Result<RunResult, String> {
     let mut m = M::new(sh.cfg);
     let mut cost: u32 = 0;
-    let mut choices: Vec<u16> = Vec::with_capacity(prefix.len() + 32);
+    let mut choices: Vec<Step> = Vec::with_capacity(prefix.len() + 32);
     let mut labels: Vec<String> = Vec::new();
     let mut children = Vec::new();
     let mut steps_total = 0u64;
     let mut steps_new = 0u64;
     for &c in prefix {
+        let (idx, dev) = dec(c);
         let en = m.enabled();
-        if (c as usize) >= en.len() {
-            return Err(format!("replay diverged: choice {} not enabled at step {} (labels so far {:?})", c, choices.len(), labels));
+        if idx >= en.len() {
+            return Err(format!("replay diverged: choice {} not enabled at step {} (labels so far {:?})", idx, choices.len(), labels));
         }
-        cost += en[c as usize].cost as u32;
-        labels.push(en[c as usize].label.clone());
-        m.apply(c as usize);
+        cost += en[idx].cost as u32 + (dev != Dev::None) as u32;
+        labels.push(format!("{}{}", en[idx].label, dev_suffix(dev)));
+        if dev != Dev::None {
+            m.set_deviation(dev);
+        }
+        m.apply(idx);
+        if dev != Dev::None && !m.deviation_reached() {
+            return Err(format!("replay diverged: scheduling deviation {:?} does not exist at step {} (labels {:?})", dev, choices.len(), labels));
+        }
         choices.push(c);
         steps_total += 1;
     }
     if !prefix.is_empty() {
         steps_new += 1;
+        if record && choices.len() <= sh.limits.max_depth {
+            pick_children(sh, &m, &choices, cost, &mut children);
+        }
     }
     let mut leaf = false;
     loop {
@@ -173,7 +295,7 @@ fn run_one<M: Model>(sh: &Shared<M>, prefix: &[u16], record: bool) -> Result<Run
                 }
                 if cost + ch.cost as u32 <= sh.bound {
                     let mut p = choices.clone();
-                    p.push(alt as u16);
+                    p.push(enc(alt, Dev::None));
                     children.push(p);
                 }
             }
@@ -191,6 +313,9 @@ fn run_one<M: Model>(sh: &Shared<M>, prefix: &[u16], record: bool) -> Result<Run
         choices.push(0);
         steps_total += 1;
         steps_new += 1;
+        if record {
+            pick_children(sh, &m, &choices, cost, &mut children);
+        }
     }
     if let Some(e) = m.machinery_error() {
         return Err(format!("{} (history {:?})", e, labels));
@@ -346,6 +471,10 @@ pub fn explore<M: Model>(cfg: &M::Cfg, max_bound: u32, limits: &Limits) -> Outco
             states: AtomicU64::new(0),
             capped_runs: AtomicU64::new(0),
             rechecks: AtomicU64::new(0),
+            pick_points: AtomicU64::new(0),
+            pick_alts: AtomicU64::new(0),
+            sync_points: AtomicU64::new(0),
+            park_alts: AtomicU64::new(0),
             max_depth_seen: AtomicUsize::new(0),
             time_capped: AtomicBool::new(false),
             error: Mutex::new(None),
@@ -376,6 +505,10 @@ pub fn explore<M: Model>(cfg: &M::Cfg, max_bound: u32, limits: &Limits) -> Outco
         total.nontrivial_outcomes = sh.nontrivial.load(Ordering::Relaxed);
         total.depth_capped_runs = sh.capped_runs.load(Ordering::Relaxed);
         total.determinism_rechecks += sh.rechecks.load(Ordering::Relaxed);
+        total.pick_points = sh.pick_points.load(Ordering::Relaxed);
+        total.pick_alternatives = sh.pick_alts.load(Ordering::Relaxed);
+        total.sync_points = sh.sync_points.load(Ordering::Relaxed);
+        total.park_alternatives = sh.park_alts.load(Ordering::Relaxed);
         for (k, f) in sh.found.lock().unwrap().iter() {
             all_found.entry(k.clone()).or_insert_with(|| f.clone());
         }
@@ -405,8 +538,17 @@ pub fn replay_labels<M: Model>(cfg: &M::Cfg, labels: &[String], finish: bool) ->
     let mut m = M::new(cfg);
     for (i, l) in labels.iter().enumerate() {
         let en = m.enabled();
-        match en.iter().position(|c| &c.label == l) {
-            Some(idx) => m.apply(idx),
+        let (l, dev) = split_dev(l);
+        match en.iter().position(|c| c.label == l) {
+            Some(idx) => {
+                if dev != Dev::None {
+                    m.set_deviation(dev);
+                }
+                m.apply(idx);
+                if dev != Dev::None && !m.deviation_reached() {
+                    return Err(format!("replay diverged at step {}: scheduling deviation {:?} does not exist", i, dev));
+                }
+            }
             None => {
                 return Err(format!(
                     "replay diverged at step {}: label {:?} not enabled; enabled = {:?}",
